@@ -97,7 +97,7 @@ func report(cfg *runCfg, g *Gen, results []*fnResult, obls []*Obligation, engine
 	violations := 0
 	exit := 0
 	var lines []string
-	replayDir := filepath.Join(cfg.verif, "replays", cfg.prop)
+	replayDir := filepath.Join(cfg.out, "replays", cfg.prop)
 	report1 := func(o *Obligation, decided bool) {
 		if kf := isKnown(o.Name); kf != nil {
 			lines = append(lines, fmt.Sprintf("KNOWN-FINDING: property=%s %s (%s)", cfg.prop, kf.What, o.Name))
@@ -235,8 +235,8 @@ func writeEvidence(cfg *runCfg, g *Gen, results []*fnResult, obls, discharged, f
 		"violations":  violations,
 	}
 	b, _ := json.MarshalIndent(ev, "", " ")
-	os.MkdirAll(filepath.Join(cfg.verif, "evidence"), 0o755)
-	os.WriteFile(filepath.Join(cfg.verif, "evidence", cfg.prop+".json"), b, 0o644)
+	os.MkdirAll(filepath.Join(cfg.out, "evidence"), 0o755)
+	os.WriteFile(filepath.Join(cfg.out, "evidence", cfg.prop+".json"), b, 0o644)
 }
 
 func round3(f float64) float64 { return float64(int(f*1000+0.5)) / 1000 }
